@@ -53,7 +53,8 @@ func genDescription(r *rng.R) string {
 	return strings.Join(lines, "\n")
 }
 
-var relPool = []string{"bash", "libc6 >= 2.30", "foo = 1.2.3", "bar < 2", "python3", "zsh >= 5", "with-dash", "cap.sule"}
+// the same package name under several constraints is legitimate and must survive (libfoo >= 1.2, libfoo < 2.0)
+var relPool = []string{"bash", "libc6 >= 2.30", "foo = 1.2.3", "foo < 2.0", "foo >= 1.0", "bar < 2", "bar", "python3", "zsh >= 5", "with-dash", "cap.sule"}
 
 func genRelList(r *rng.R) []string {
 	n := r.Intn(5)
@@ -294,7 +295,8 @@ func runC02(c *Ctx) error {
 	fam.Exhaustive = true
 	arches := []string{"386", "amd64", "arm64", "arm5", "arm6", "arm7", "mips", "mipsle", "mips64le", "ppc64le", "s390", "all", "riscv64", "mipssoftfloat", "mips64lehardfloat"}
 	for _, a := range arches {
-		for _, ov := range []string{"", "custom-arch"} {
+		// an override is used verbatim even when it happens to be a GOARCH name of the translation table
+		for _, ov := range []string{"", "custom-arch", "arm64", "all", "386"} {
 			for _, f := range Formats {
 				a, ov, f := a, ov, f
 				s := &PkgSpec{Umask: 0o022, MTime: 1700000000, Mutate: func(info *nfpm.Info) {
